@@ -1,5 +1,4 @@
-(** the OR cursor arithmetic indexes out of range exactly when OR is the third
-    token from the end and its first key takes an argument *)
+(** the OR cursor arithmetic never indexes out of range (after fix c12-6) *)
 From Coq Require Import String Ascii List Bool Arith Lia.
 From Raven Require Import Base.GoStr Model.Slicers Model.SearchOr.
 Import ListNotations.
@@ -23,20 +22,17 @@ Qed.
 Lemma take_key_none (tokens : list str) (i : nat) : length tokens <= i -> take_key tokens i = None.
 Proof. intros H. unfold take_key. apply nth_error_None in H. now rewrite H. Qed.
 
-Theorem or_step_none_iff (tokens : list str) (i : nat) :
-  or_step tokens i = None <-> classify_or tokens i = Some SearchOrArity.
+Theorem or_step_total (tokens : list str) (i : nat) : or_step tokens i <> None.
 Proof.
-  unfold or_step, classify_or.
-  destruct (Nat.leb_spec (length tokens) (i + 2)) as [G|G].
-  - destruct (Nat.eqb_spec (i + 3) (length tokens)); [lia|]. simpl. split; discriminate.
-  - assert (H1 : i + 1 < length tokens) by lia.
-    unfold take_key at 1. destruct (nth_some tokens (i + 1) H1) as [t E]. rewrite E.
-    destruct (Nat.ltb_spec (i + 1 + 1) (length tokens)) as [L|L]; [|lia]. simpl.
-    destruct (requires_argument (to_upper t)) eqn:R.
-    + destruct (nth_some tokens (i + 1 + 1) L) as [a ->].
-      destruct (Nat.eqb_spec (i + 3) (length tokens)) as [Q|Q]; simpl.
-      * rewrite take_key_none by lia. split; reflexivity.
-      * destruct (take_key_some tokens (i + 1 + 1 + 1)) as [k [j [-> _]]]; [lia|]. split; discriminate.
-    + rewrite andb_false_r.
-      destruct (take_key_some tokens (i + 1 + 1)) as [k [j [-> _]]]; [lia|]. split; discriminate.
+  unfold or_step.
+  destruct (Nat.leb_spec (length tokens) (i + 2)) as [G|G]; [discriminate|].
+  destruct (take_key_some tokens (i + 1)) as [k1 [j [-> [_ Hj]]]]; [lia|].
+  destruct (Nat.leb_spec (length tokens) (j + 1)) as [G2|G2]; [discriminate|].
+  destruct (take_key_some tokens (j + 1)) as [k2 [j2 [-> _]]]; [lia|]. discriminate.
 Qed.
+
+(** regression fact about the OLD code (before fix c12-6), stated without the
+    current model: reading the second key at cursor i+3 of a 3-token list *)
+Example old_or_second_key_out_of_range :
+  nth_error [S_ "OR"; S_ "KEYWORD"; S_ "x"] 3 = None.
+Proof. reflexivity. Qed.
